@@ -11,5 +11,6 @@ CONSTANTS
   NO_INS_ON_DELETE = FALSE
   SCAN_NO_FINAL = TRUE
   SCAN_NO_ENTRY_CHECK = TRUE
+  SCAN_DUP = FALSE
 INVARIANTS LinOK ScanOK NvOK RootOpsOK Quiescent
 PROPERTY Termination
